@@ -488,6 +488,8 @@ def run_check(spec, tier, verif_seed):
     # the official evidence file describes /repo itself; runs against another tree (mutants, seeded changes) write elsewhere
     ev_dir = os.path.join(env.VERIF_DIR, "evidence") if os.path.realpath(env.repo_dir()) == "/repo" \
         else os.path.join(env.VERIF_DIR, ".work", "evidence_other_tree")
+    if os.environ.get("VERIF_EVIDENCE_DIR"):  # soak runs keep their reports apart from the official evidence
+        ev_dir = os.environ["VERIF_EVIDENCE_DIR"]
     os.makedirs(ev_dir, exist_ok=True)
     with open(os.path.join(ev_dir, f"{spec.prop}.json"), "w") as f:
         json.dump(evidence, f, indent=1, sort_keys=True)
